@@ -1,5 +1,9 @@
 #include <deque>
 #include <solver/lbfgs.h>
+#ifdef NANO_VERIF
+#include <nano/verif.h>
+#include <vector>
+#endif
 
 using namespace nano;
 
@@ -76,6 +80,25 @@ solver_state_t solver_lbfgs_t::do_minimize(const function_t& function, const vec
             r += s * (alpha - beta);
         }
 
+#ifdef NANO_VERIF
+        {
+            const auto          n = function.size();
+            std::vector<double> values;
+            values.push_back(static_cast<double>(n));
+            values.push_back(static_cast<double>(hsize));
+            values.insert(values.end(), cstate.gx().data(), cstate.gx().data() + n);
+            for (const auto& s : ss)
+            {
+                values.insert(values.end(), s.data(), s.data() + n);
+            }
+            for (const auto& y : ys)
+            {
+                values.insert(values.end(), y.data(), y.data() + n);
+            }
+            values.insert(values.end(), r.data(), r.data() + n);
+            ::nano::verif::event_values(::nano::verif::ev_lbfgs_direction, this, values.data(), static_cast<int>(values.size()));
+        }
+#endif
         auto& descent = r;
         descent       = -r;
 
